@@ -197,7 +197,7 @@ func c18Exec(raw json.RawMessage) interface{} {
 		lock, err := getObj(m, 0)
 		ok := false
 		if err == nil {
-			lock.timeout = 5 * time.Second
+			lock.timeout = 30 * time.Second
 			if err := lock.Lock(); err == nil {
 				ok = lock.Unlock() == nil
 			}
@@ -293,5 +293,5 @@ func TestVerifC18Mutex(t *testing.T) {
 			c18Members[i].Close(wg)
 		}
 	}()
-	verifh.Run(t, c18Gen, c18Exec, 15*time.Second)
+	verifh.Run(t, c18Gen, c18Exec, 180*time.Second)
 }
